@@ -103,12 +103,18 @@ pub fn decoded_equals_handed(rec: &codec::DRecord, exp: &MRead) -> Option<String
 
 /// The .shp image is a complete well-formed file holding exactly `shapes`.
 pub fn shp_holds_exactly(shp: &[u8], ty: Ty, shapes: &[MRead]) -> Option<String> {
+    shp_holds_exactly_opt(shp, ty, shapes, false)
+}
+
+/// `typed_empty_ok`: a file without records may already declare its type (a first write that failed after the
+/// header space was reserved)
+pub fn shp_holds_exactly_opt(shp: &[u8], ty: Ty, shapes: &[MRead], typed_empty_ok: bool) -> Option<String> {
     let df = match codec::decode_file(shp, &DecodeOpts { strict: true }) {
         Ok(d) => d,
         Err(e) => return Some(format!("validator: {}", e)),
     };
     let want_ty = if shapes.is_empty() { 0 } else { ty.code() };
-    if df.header.ty_code != want_ty {
+    if df.header.ty_code != want_ty && !(typed_empty_ok && shapes.is_empty() && df.header.ty_code == ty.code()) {
         return Some(format!("header-type: {} expected {}", df.header.ty_code, want_ty));
     }
     if df.records.len() != shapes.len() {
